@@ -52,7 +52,7 @@ MUST_REACH = [
     "lena/math/elements.py:Mean.compute", "lena/math/elements.py:Mean.reset",
     "lena/math/elements.py:VarianceMeanCount.compute",
     "lena/math/elements.py:VarianceMeanCount._reset",
-    "lena/math/elements.py:Vectorize.compute", "lena/math/elements.py:Vectorize.reset",
+    "lena/math/elements.py:Vectorize.compute", "lena/math/elements.py:Vectorize._reset",
     "lena/flow/elements.py:Count.compute", "lena/flow/elements.py:Count.reset",
     "lena/flow/elements.py:StoreFilled.compute", "lena/flow/elements.py:StoreFilled.reset",
     "lena/flow/group_by.py:GroupBy.compute", "lena/flow/group_by.py:GroupBy.reset",
